@@ -23,8 +23,8 @@ from core import Exn, call, cstr, cbool, clist
 from reqgen import KINDS, KIND_ORDER, BINDINGS, NOW, cfgspec, rspec
 
 CLAIM = {
-    "text": "WORK IN PROGRESS. Proved so far (Props/C10.v): only C10_table_is_documented - the entry-point table recorded from the code (method -> request class, msgtype, service, accepted root tag, SOAP reader, argument pass-through) equals the documented table the model is written against. The executable model Model/Request.v of Entity._parse_request / unravel / Request._loads / correctly_signed_message / _check_signature / Request._verify exists and is only TESTED against the real entry points (correspondence on ~6400 cases per run); the theorems about it are not written yet.",
-    "note": "Trusted: Coq kernel + vm_compute; hand-written model tied to the code by testing; stand-in xmlsec1; symbolic signatures. EXPECTS /repo + the F16 repair (if not verified: raise SignatureError in _check_signature). Known: request wrapping is accepted without the C01 pre-check.",
+    "text": "Coq theorems (Props/C10.v) over an executable model of Entity._parse_request (receiver addresses per service/binding/context with the aa/aq/pdp fallback and the odd-endpoint-spec branch of Config.endpoint, accepted_time_diff, must = want_authn_requests_signed or want_authn_requests_only_with_valid_cert), Entity.unravel per binding incl. the SOAP envelope reader, Request._loads (every non-TypeError exception of the signature check ends in IncorrectlySigned; valid_instance), SecurityContext.correctly_signed_message (root element test, unsigned-and-must, signed -> _check_signature: certificate selection of C03, per-certificate tool runs with the symbolic tool semantics of Model/Xmlsec.v, certificate validation) and Request._verify (Version, Destination, IssueInstant window): for EVERY configuration, request kind, binding and received text, a request is handed to the application only if its root element is the expected request type of that entry point, valid_instance passed, Version is 2.0, Destination is absent/empty or one of the receiver's own addresses for that service and binding (or the receiver has none), IssueInstant lies in [now-86400-slack, now+86400+slack), a signature child on the root verified (tool semantics) under a candidate certificate of the issuer that also passed certificate validation - with only_use_keys_in_metadata (the default) a certificate the metadata holds for the issuer with use signing - and want_authn_requests_signed / only_with_valid_cert imply a signature is present (C10_handed_over_only_if_valid, with the F16 repair of proposed_fix/C10-1.diff in the model; C10_before_fix_refuted keeps the witness that without it only_valid_cert hands over a request whose signature verified under no certificate). Coverage of the request element itself by the verified signature and refusal of every modification of a signed request are PROVED ONLY for the code state with the enveloping pre-check of the C01 repair (C10_signature_covers_request, C10_tamper, both for pre = true and for either duplicate-ID policy of the tool); for the code as it is they are REFUTED by a wrapping witness (C10_covers_refuted_without_precheck) and proved under the hypothesis that the pre-check predicate holds of the received document (C10_covers_partial, C10_tamper_partial). The documented entry-point table (method -> request class, msgtype, service, root tag accepted by <msgtype>_from_string, SOAP reader and its root tag, pass-through of must/only_valid_cert) is regenerated from the code by recording and proved equal to the table the model uses (C10_table_is_documented). Tie to the code: on every run the real entry points and the model are run on the same cases (all 8 request kinds, Redirect/POST/SOAP and the odd bindings, signed/unsigned/wrong key x want_authn_requests_signed x only_with_valid_cert x validate_certificate x only_use_keys_in_metadata x metadata key layouts, every mutation operator on signed requests incl. 33 wrapping variants under both duplicate-ID policies, destination variants incl. near misses over 8 endpoint layouts, IssueInstant around both edges for 4 allowances, versions, schema-invalid requests, wrong roots, truncated/garbled encodings and SOAP shapes, seeded random combinations), compared at handed-over/refused granularity.",
+    "note": "Trusted: Coq kernel + vm_compute; the hand-written model is tied to the code by testing (the correspondence above), not proof; signatures are symbolic (a signature node records key, intactness and the digested content) and every statement about verification is relative to the stand-in tool's node-selection semantics (real xmlsec1 is absent); valid_instance (C13), certificate-chain validation (cert.py) and the transport decoders (C14) enter the model as classified inputs computed by the harness itself. EXPECTS /repo + proposed_fix/C10-1.diff (F16). Known finding (depends on the C01 repair): without the enveloping pre-check a forged request carrying a genuine signed request of the same sender inside Extensions / ds:Object is handed over. Only tested, not proved: agreement of model and code; the IssueInstant edges exactly at now-86400-slack and now+86400+slack are run but not compared; a Redirect-binding query-string signature is never seen by _parse_request (the application must call verify_redirect_signature, property C15).",
     "technique": "machine-checked proof (Coq) + regenerated-table obligation + model/implementation correspondence + implementation-level oracle",
 }
 TRUSTED = [
